@@ -128,3 +128,391 @@ Section Fusion.
       destruct ta; cbn [tril_phase is_raise andb] in *; try reflexivity. now rewrite He3.
   Qed.
 End Fusion.
+
+(* ------------------------------------------------------------ consequences of the map/filter form *)
+Lemma collect_app l1 l2 :
+  collect (l1 ++ l2) =
+  match collect l1, collect l2 with
+  | Some a, Some b => Some (a ++ b)
+  | _, _ => None
+  end.
+Proof.
+  unfold collect. rewrite existsb_app, flat_map_app.
+  destruct (existsb is_err l1), (existsb is_err l2); reflexivity.
+Qed.
+
+(** re-chunking: processing a chunk in two pieces fails iff a piece fails, and otherwise
+    concatenates the outputs *)
+Theorem sanitize_app blocks ob val ta c1 c2 :
+  sanitize_records blocks ob val ta (c1 ++ c2) =
+  match sanitize_records blocks ob val ta c1, sanitize_records blocks ob val ta c2 with
+  | Some a, Some b => Some (a ++ b)
+  | _, _ => None
+  end.
+Proof. rewrite !sanitize_is_map_filter, map_app. apply collect_app. Qed.
+
+Lemma existsb_perm {A} (p : A -> bool) l l' : Permutation l l' -> existsb p l = existsb p l'.
+Proof.
+  induction 1 as [|x l l' _ IH|x y l|l l' l'' _ IH1 _ IH2]; cbn; try congruence.
+  destruct (p x), (p y); reflexivity.
+Qed.
+
+Lemma flat_map_perm {A B} (g : A -> list B) l l' : Permutation l l' -> Permutation (flat_map g l) (flat_map g l').
+Proof.
+  induction 1 as [|x l l' _ IH|x y l|l l' l'' _ IH1 _ IH2]; cbn.
+  - constructor.
+  - now apply Permutation_app_head.
+  - rewrite !app_assoc. apply Permutation_app_tail, Permutation_app_comm.
+  - eapply Permutation_trans; eauto.
+Qed.
+
+(** record order: a permuted chunk fails iff the original fails, and otherwise yields a permutation
+    of the same output records *)
+Theorem sanitize_perm blocks ob val ta c c' : Permutation c c' ->
+  match sanitize_records blocks ob val ta c, sanitize_records blocks ob val ta c' with
+  | Some a, Some a' => Permutation a a'
+  | None, None => True
+  | _, _ => False
+  end.
+Proof.
+  intros HP. rewrite !sanitize_is_map_filter. unfold collect.
+  pose proof (Permutation_map (sanitize1 blocks ob val ta) HP) as HP'.
+  rewrite (existsb_perm is_err _ _ HP').
+  destruct (existsb is_err (map (sanitize1 blocks ob val ta) c')); [exact I|].
+  now apply flat_map_perm.
+Qed.
+
+Definition is_keep (o : outcome) : bool := match o with OKeep _ => true | _ => false end.
+
+Lemma length_kept l : length (flat_map kept l) = length (filter is_keep l).
+Proof. induction l as [|[| |o] l IH]; cbn; lia. Qed.
+
+(** every retained record contributes exactly one output row *)
+Theorem sanitize_count blocks ob val ta chunk out :
+  sanitize_records blocks ob val ta chunk = Some out ->
+  length out = length (filter (fun r => is_keep (sanitize1 blocks ob val ta r)) chunk).
+Proof.
+  rewrite sanitize_is_map_filter. unfold collect.
+  destruct (existsb is_err _); [discriminate|]. intros H. injection H as <-.
+  rewrite length_kept. clear. induction chunk as [|r chunk IH]; [reflexivity|].
+  cbn [map filter]. destruct (is_keep _); cbn [length]; lia.
+Qed.
+
+(* ------------------------------------------------------------ aggregate_records *)
+Lemma sumZ_cons a l : sumZ (a :: l) = a + sumZ l.
+Proof. reflexivity. Qed.
+
+Lemma sum_ins k v l : sumZ (map snd (ins k v l)) = v + sumZ (map snd l).
+Proof.
+  induction l as [|[k' v'] l IH]; [cbn; lia|]. cbn [ins].
+  destruct (kcmp k k'); cbn [map snd]; rewrite ?sumZ_cons; cbn [snd]; rewrite ?sumZ_cons, ?IH; cbn [snd]; lia.
+Qed.
+
+Lemma sum_aggregate l : sumZ (map snd (aggregate l)) = sumZ (map snd l).
+Proof.
+  unfold aggregate. enough (H : forall acc, sumZ (map snd (fold_left (fun acc p => ins (fst p) (snd p) acc) l acc)) =
+                                sumZ (map snd acc) + sumZ (map snd l)) by (rewrite H; cbn [map]; change (sumZ []) with 0; lia).
+  induction l as [|p l IH]; intros acc; [cbn [fold_left map]; change (sumZ []) with 0; lia|].
+  cbn [fold_left]. rewrite IH, sum_ins. cbn [map]. rewrite sumZ_cons. lia.
+Qed.
+
+Lemma sum_ones {A} (g : A -> key) l : sumZ (map snd (map (fun o => (g o, 1)) l)) = zlen l.
+Proof.
+  unfold zlen. induction l as [|a l IH]; [reflexivity|]. cbn [map length]. rewrite sumZ_cons, IH. cbn [snd]. lia.
+Qed.
+
+(** aggregate_records: the canonical pixel table of the records, value = multiplicity; the counts add
+    up to the number of records *)
+Theorem aggregate_records_canon recs :
+  Canon (map (fun o => (okey o, 1)) recs) (aggregate_records recs) /\
+  sumZ (map snd (aggregate_records recs)) = zlen recs.
+Proof.
+  split; [apply aggregate_canon|]. unfold aggregate_records. rewrite sum_aggregate. apply sum_ones.
+Qed.
+
+Lemma look_ones (g : outrec -> key) l k :
+  look (map (fun o => (g o, 1)) l) k = zlen (filter (fun o => keqb (g o) k) l).
+Proof.
+  unfold zlen. induction l as [|a l IH]; [reflexivity|]. cbn [map look filter].
+  destruct (kcmp k (g a)) eqn:E.
+  - apply kcmp_eq in E. subst k.
+    assert (H : keqb (g a) (g a) = true) by (unfold keqb; now rewrite !Z.eqb_refl).
+    rewrite H. cbn [length]. lia.
+  - assert (keqb (g a) k = false).
+    { unfold keqb. apply kcmp_lt in E. unfold klt in E. lia. }
+    rewrite H. lia.
+  - assert (keqb (g a) k = false).
+    { unfold keqb. apply kcmp_gt in E. unfold klt in E. lia. }
+    rewrite H. lia.
+Qed.
+
+(** the count stored for a pixel is the number of records binned to it *)
+Corollary aggregate_records_multiplicity recs k :
+  look (aggregate_records recs) k = zlen (filter (fun o => keqb (okey o) k) recs).
+Proof.
+  destruct (aggregate_records_canon recs) as [(_ & _ & Hl) _]. unfold aggregate_records in *. rewrite Hl. apply look_ones.
+Qed.
+
+(** total stored by the whole step = number of retained records *)
+Theorem total_equals_retained blocks ob val ta chunk out :
+  sanitize_records blocks ob val ta chunk = Some out ->
+  sumZ (map snd (aggregate_records out)) =
+  zlen (filter (fun r => is_keep (sanitize1 blocks ob val ta r)) chunk).
+Proof.
+  intros H. destruct (aggregate_records_canon out) as [_ ->]. unfold zlen. now rewrite (sanitize_count _ _ _ _ _ _ H).
+Qed.
+
+(* ------------------------------------------------------------ rejection and dropping *)
+Theorem unknown_dropped blocks ob val ta r : known r = false -> sanitize1 blocks ob val ta r = ODrop.
+Proof. intros H. unfold sanitize1, sanitize1_bs. now rewrite H. Qed.
+
+(** every record on listed chromosomes with a (shifted) position < 0 or > L is an error ... *)
+Theorem reject_out_of_range blocks ob ta r :
+  known r = true ->
+  let w := to_wrow ob r in
+  (wa1 w < 0 \/ wa2 w < 0 \/ chromsize_of blocks (wc1 w) < wa1 w \/ chromsize_of blocks (wc2 w) < wa2 w) ->
+  sanitize1 blocks ob true ta r = OErr.
+Proof.
+  intros Hk w H. unfold sanitize1, sanitize1_bs. rewrite Hk. cbn [negb andb]. fold w.
+  assert (E : is_neg w || is_excess blocks w = true) by (unfold is_neg, is_excess; lia).
+  now rewrite E.
+Qed.
+
+(** ... and makes its whole chunk fail *)
+Corollary reject_chunk blocks ob ta chunk r :
+  In r chunk -> known r = true ->
+  let w := to_wrow ob r in
+  (wa1 w < 0 \/ wa2 w < 0 \/ chromsize_of blocks (wc1 w) < wa1 w \/ chromsize_of blocks (wc2 w) < wa2 w) ->
+  sanitize_records blocks ob true ta chunk = None.
+Proof.
+  intros Hin Hk w H. rewrite sanitize_is_map_filter. unfold collect.
+  assert (E : existsb is_err (map (sanitize1 blocks ob true ta) chunk) = true).
+  { apply existsb_exists. exists OErr. split; [|reflexivity].
+    rewrite <- (reject_out_of_range blocks ob ta r Hk H). now apply in_map. }
+  now rewrite E.
+Qed.
+
+(** what validation guarantees for a retained record: listed chromosomes, 0 <= position <= L.
+    The right end is CLOSED: position = L passes (known finding D2) *)
+Theorem accepted_in_range blocks ob ta r o :
+  sanitize1 blocks ob true ta r = OKeep o ->
+  known r = true /\
+  let w := to_wrow ob r in
+  0 <= wa1 w <= chromsize_of blocks (wc1 w) /\ 0 <= wa2 w <= chromsize_of blocks (wc2 w).
+Proof.
+  unfold sanitize1, sanitize1_bs. destruct (known r); cbn [negb andb]; [|discriminate].
+  destruct (is_neg (to_wrow ob r) || is_excess blocks (to_wrow ob r)) eqn:E; [discriminate|].
+  intros _. split; [reflexivity|]. unfold is_neg, is_excess in E. cbn zeta. lia.
+Qed.
+
+(** the full statement "position >= L is rejected" is false of the code: a zero-based position equal to the
+    chromosome length is accepted and binned into the NEXT chromosome (fixed-width table), or gets the
+    bin id nbins when it is the last chromosome *)
+Theorem reject_refuted :
+  let blocks := [[(0,0,10);(0,10,20)]; [(1,0,10)]] in
+  let r : record := ((0, 20, 7), (0, 3, 8)) in
+  valid_blocks_b blocks = true /\ known r = true /\ sp (fst r) = chromsize_of blocks (sc (fst r)) /\
+  sanitize1 blocks false true TrilReflect r = OKeep (0, 2, (0, 3, 8), (0, 20, 7)) /\
+  nth_error (table blocks) 2 = Some (1, 0, 10) /\
+  sanitize1 [[(0,0,10);(0,10,20)]] false true TrilReflect r = OKeep (0, 2, (0, 3, 8), (0, 20, 7)) /\
+  zlen (table [[(0,0,10);(0,10,20)]]) = 2.
+Proof. vm_compute. repeat split; reflexivity. Qed.
+
+(* ------------------------------------------------------------ one-based input *)
+Definition dec_rec (r : record) : record :=
+  ((sc (fst r), sp (fst r) - 1, sx (fst r)), (sc (snd r), sp (snd r) - 1, sx (snd r))).
+Definition outcome_bins (o : outcome) : option (option key) :=
+  match o with OErr => None | ODrop => Some None | OKeep x => Some (Some (okey x)) end.
+
+(** one-based input is zero-based input shifted by exactly one: same verdict, same pixel *)
+Theorem one_based_shift blocks val ta r :
+  outcome_bins (sanitize1 blocks true val ta r) = outcome_bins (sanitize1 blocks false val ta (dec_rec r)).
+Proof.
+  destruct r as [[[c1 p1] x1] [[c2 p2] x2]].
+  unfold sanitize1, sanitize1_bs, dec_rec, known, to_wrow, is_neg, is_excess, is_tril, assign_w, swap_w,
+    wc1, wa1, wc2, wa2, shift1, sc, sp, sx. cbn [fst snd].
+  repeat match goal with |- context [if ?b then _ else _] => destruct b end; try reflexivity;
+  destruct ta; reflexivity.
+Qed.
+
+(* ------------------------------------------------------------ valid records: containment and triangle handling *)
+Lemma chromsize_of_nth blocks i blk : nth_error blocks i = Some blk -> chromsize_of blocks (Z.of_nat i) = chrom_len blk.
+Proof.
+  intros Hi. unfold chromsize_of, gs_chromsizes, chromsizes. rewrite Nat2Z.id.
+  apply nth_error_nth. now rewrite nth_error_map, Hi.
+Qed.
+
+(** an anchor (chromosome code c, zero-based position a) lies inside a listed chromosome *)
+Definition InChrom (blocks : list (list bin)) (c a : Z) : Prop :=
+  exists i blk, c = Z.of_nat i /\ nth_error blocks i = Some blk /\ 0 <= a < chrom_len blk.
+
+Definition os1 (o : outrec) : side := snd (fst o).
+Definition os2 (o : outrec) : side := snd o.
+
+Lemma inchrom_contains blocks c a : ValidBlocks blocks -> InChrom blocks c a ->
+  contains_b blocks c a (assign blocks c a) = true.
+Proof.
+  intros HV (i & blk & -> & Hi & Ha). apply contains_b_spec.
+  destruct (assign_contains blocks i blk a HV Hi Ha) as (x & Hx & Hc & Hp & Hr).
+  pose proof (chrom_offset_nonneg blocks i). split; [lia|]. exists x. auto.
+Qed.
+
+Section ValidRecord.
+  Variable blocks : list (list bin).
+  Variables (ob : bool) (r : record).
+  Hypothesis HV : ValidBlocks blocks.
+  Let w := to_wrow ob r.
+  Hypothesis H1 : InChrom blocks (wc1 w) (wa1 w).
+  Hypothesis H2 : InChrom blocks (wc2 w) (wa2 w).
+
+  Lemma valid_known : known r = true.
+  Proof.
+    destruct H1 as (i1 & b1 & E1 & _), H2 as (i2 & b2 & E2 & _).
+    unfold known. unfold w, to_wrow, wc1, wc2 in E1, E2. cbn [fst snd] in E1, E2. lia.
+  Qed.
+
+  Lemma valid_passes : is_neg w || is_excess blocks w = false.
+  Proof.
+    destruct H1 as (i1 & b1 & E1 & Hi1 & Ha1), H2 as (i2 & b2 & E2 & Hi2 & Ha2).
+    unfold is_neg, is_excess. rewrite E1, E2, (chromsize_of_nth _ _ _ Hi1), (chromsize_of_nth _ _ _ Hi2). lia.
+  Qed.
+
+  (** the verdict on a valid record, by triangle action *)
+  Theorem sanitize1_valid ta :
+    sanitize1 blocks ob true ta r =
+    if is_tril w then
+      match ta with
+      | TrilNone => OKeep (assign_w (gs_binsize blocks) blocks w)
+      | TrilReflect => OKeep (assign_w (gs_binsize blocks) blocks (swap_w w))
+      | TrilDrop => ODrop
+      | TrilRaise => OErr
+      end
+    else OKeep (assign_w (gs_binsize blocks) blocks w).
+  Proof.
+    unfold sanitize1, sanitize1_bs. rewrite valid_known. cbn [negb andb]. fold w. now rewrite valid_passes.
+  Qed.
+
+  (** a retained valid record keeps its two sides (possibly exchanged) and each output bin contains
+      the anchor of the side it belongs to *)
+  Theorem kept_contains ta o :
+    sanitize1 blocks ob true ta r = OKeep o ->
+    ((os1 o, os2 o) = (fst r, snd r) \/ (os1 o, os2 o) = (snd r, fst r)) /\
+    contains_b blocks (sc (os1 o)) (shift1 ob (sp (os1 o))) (ob1 o) = true /\
+    contains_b blocks (sc (os2 o)) (shift1 ob (sp (os2 o))) (ob2 o) = true.
+  Proof.
+    rewrite sanitize1_valid.
+    pose proof (inchrom_contains blocks _ _ HV H1) as C1. pose proof (inchrom_contains blocks _ _ HV H2) as C2.
+    unfold assign in C1, C2.
+    destruct (is_tril w); [destruct ta|]; intros E; try discriminate; injection E as <-;
+      unfold assign_w, swap_w, os1, os2, ob1, ob2, wc1, wa1, wc2, wa2 in *; cbn [fst snd] in *;
+      unfold w, to_wrow in *; cbn [fst snd] in *; auto.
+  Qed.
+End ValidRecord.
+
+(* ------------------------------------------------------------ order of the assigned bins *)
+Lemma chrom_offset_le blocks i j : (i <= j)%nat -> chrom_offset blocks i <= chrom_offset blocks j.
+Proof.
+  intros Hij. unfold chrom_offset, zlen. apply inj_le.
+  replace (firstn j blocks) with (firstn i (firstn j blocks) ++ skipn i (firstn j blocks)) by apply firstn_skipn.
+  rewrite firstn_firstn, Nat.min_l by lia. rewrite concat_app, app_length. lia.
+Qed.
+
+Lemma ss_right_mono l a1 a2 : a1 <= a2 -> searchsorted_right l a1 <= searchsorted_right l a2.
+Proof.
+  intros Ha. induction l as [|y l IH]; cbn [searchsorted_right]; [lia|].
+  pose proof (ss_right_bounds l a2). destruct (y <=? a1) eqn:E1, (y <=? a2) eqn:E2; lia.
+Qed.
+
+Lemma assign_mono blocks i blk a1 a2 :
+  ValidBlocks blocks -> nth_error blocks i = Some blk -> 0 <= a1 <= a2 ->
+  assign blocks (Z.of_nat i) a1 <= assign blocks (Z.of_nat i) a2.
+Proof.
+  intros HV Hi Ha. rewrite (assign_extent blocks i blk a1 0 HV Hi), (assign_extent blocks i blk a2 0 HV Hi).
+  unfold region_to_extent. destruct (get_binsize (table blocks)) as [b|] eqn:Hb.
+  - destruct (fixed_shape blocks i blk b HV Hi Hb) as (Hb1 & _). unfold region_to_extent_fixed. cbn [fst].
+    pose proof (Z.div_le_mono a1 a2 b ltac:(lia) ltac:(lia)). lia.
+  - rewrite !(var_unfold blocks i blk Hi). cbn [fst].
+    pose proof (ss_right_mono (map bstart blk) a1 a2 ltac:(lia)). lia.
+Qed.
+
+(** anchors in upper-triangle order get bins in upper-triangle order *)
+Theorem upper_bins blocks c1 a1 c2 a2 :
+  ValidBlocks blocks -> InChrom blocks c1 a1 -> InChrom blocks c2 a2 ->
+  (c1 < c2 \/ (c1 = c2 /\ a1 <= a2)) ->
+  assign blocks c1 a1 <= assign blocks c2 a2.
+Proof.
+  intros HV (i1 & b1 & -> & Hi1 & Ha1) (i2 & b2 & -> & Hi2 & Ha2) Hle.
+  destruct Hle as [Hlt|[Heq Hle]].
+  - destruct (assign_contains blocks i1 b1 a1 HV Hi1 Ha1) as (_ & _ & _ & _ & Hr1).
+    destruct (assign_contains blocks i2 b2 a2 HV Hi2 Ha2) as (_ & _ & _ & _ & Hr2).
+    pose proof (chrom_offset_le blocks (S i1) i2 ltac:(lia)). lia.
+  - assert (i1 = i2) by lia. subst i2. apply (assign_mono blocks i1 b1); auto. lia.
+Qed.
+
+Section Triangle.
+  Variable blocks : list (list bin).
+  Variables (ob : bool) (r : record).
+  Hypothesis HV : ValidBlocks blocks.
+  Let w := to_wrow ob r.
+  Hypothesis H1 : InChrom blocks (wc1 w) (wa1 w).
+  Hypothesis H2 : InChrom blocks (wc2 w) (wa2 w).
+
+  (** "reflect": every valid record is retained, a lower-triangle one with its sides exchanged, and the
+      result is upper triangular in anchors and in bins *)
+  Theorem reflect_upper :
+    exists o, sanitize1 blocks ob true TrilReflect r = OKeep o /\
+      (os1 o, os2 o) = (if is_tril w then (snd r, fst r) else (fst r, snd r)) /\
+      ob1 o <= ob2 o.
+  Proof.
+    rewrite (sanitize1_valid blocks ob r H1 H2). fold w.
+    destruct (is_tril w) eqn:Et; eexists; (split; [reflexivity|]); (split; [reflexivity|]);
+      unfold assign_w, ob1, ob2; cbn [fst snd]; change (assign_bs (gs_binsize blocks) blocks) with (assign blocks).
+    - apply upper_bins; auto; unfold swap_w, wc1, wa1, wc2, wa2 in *; cbn [fst snd] in *; auto.
+      unfold is_tril, wc1, wa1, wc2, wa2 in Et. lia.
+    - apply upper_bins; auto. unfold is_tril in Et. lia.
+  Qed.
+
+  (** "drop": a valid record is retained, unchanged, iff it is not in the lower triangle *)
+  Theorem drop_lower :
+    sanitize1 blocks ob true TrilDrop r =
+    if is_tril w then ODrop else OKeep (assign blocks (wc1 w) (wa1 w), assign blocks (wc2 w) (wa2 w), fst r, snd r).
+  Proof. rewrite (sanitize1_valid blocks ob r H1 H2). fold w. destruct (is_tril w); reflexivity. Qed.
+
+  (** no action: every valid record is retained unchanged *)
+  Theorem none_keeps_all :
+    sanitize1 blocks ob true TrilNone r =
+    OKeep (assign blocks (wc1 w) (wa1 w), assign blocks (wc2 w) (wa2 w), fst r, snd r).
+  Proof. rewrite (sanitize1_valid blocks ob r H1 H2). fold w. destruct (is_tril w); reflexivity. Qed.
+End Triangle.
+
+(* ------------------------------------------------------------ _sanitize_pixels, record by record *)
+Definition sanitize_px1 (ob : bool) (ta : tril_action) (r : pxrec) : option (list pxrec) :=
+  let s := shift_px ob r in
+  if pb2 s <? pb1 s then
+    match ta with
+    | TrilNone => Some [s]
+    | TrilReflect => Some [swap_px s]
+    | TrilDrop => Some []
+    | TrilRaise => None
+    end
+  else Some [s].
+
+Theorem sanitize_pixels_is_map_filter ob ta chunk :
+  sanitize_pixels ob ta chunk = all_some (map (sanitize_px1 ob ta) chunk).
+Proof.
+  unfold sanitize_pixels. destruct ta; induction chunk as [|r chunk IH]; try reflexivity;
+    cbn [map all_some filter existsb] in *; unfold sanitize_px1 at 1; cbn zeta;
+    destruct (pb2 (shift_px ob r) <? pb1 (shift_px ob r)); cbn [negb orb]; rewrite <- ?IH; try reflexivity.
+  - destruct (existsb _ _); reflexivity.
+Qed.
+
+(** both bin columns are shifted, and a reflected pixel is upper triangular *)
+Theorem sanitize_px1_spec ob r :
+  sanitize_px1 ob TrilReflect r =
+  Some [ if shift1 ob (pb2 r) <? shift1 ob (pb1 r)
+         then (shift1 ob (pb2 r), shift1 ob (pb1 r), px2 r, px1 r, pval r)
+         else (shift1 ob (pb1 r), shift1 ob (pb2 r), px1 r, px2 r, pval r) ].
+Proof.
+  destruct r as [[[[b1 b2] x1] x2] v]. unfold sanitize_px1, shift_px, swap_px, pb1, pb2, px1, px2, pval. cbn [fst snd].
+  destruct (shift1 ob b2 <? shift1 ob b1); reflexivity.
+Qed.
